@@ -422,6 +422,9 @@ func runC11(r *Run, verifDir string) {
 	c.k2ReplyBuffered()
 	c.k6Releasable()
 	c11M4(r)
+	c11M7(r)
+	c11M8(r)
+	c11M9(r)
 	c11M6(r)
 }
 
@@ -690,9 +693,21 @@ func c11M4(r *Run) {
 				}
 			}
 		})
-		if swap != nil && term != nil && dominatesInstr(swap, term) {
-			r.OK("C11.M4", "kmipclient.conn.Close", cl.Pos(), "closed flag set before terminate")
-		} else {
+		// the flag is set on every path through Close: the marking dominates every return
+		allPaths := swap != nil
+		if swap != nil {
+			for _, b := range cl.Blocks {
+				if ret, ok := b.Instrs[len(b.Instrs)-1].(*ssa.Return); ok && !dominatesInstr(swap, ret) {
+					allPaths = false
+				}
+			}
+		}
+		switch {
+		case swap != nil && term != nil && dominatesInstr(swap, term) && allPaths:
+			r.OK("C11.M4", "kmipclient.conn.Close", cl.Pos(), "closed flag set on every path through Close, before terminate")
+		case swap != nil && term != nil && dominatesInstr(swap, term):
+			r.Bad("C11.M4", "kmipclient.conn.Close", cl.Pos(), "a path through Close returns without marking the connection closed (e.g. when it was already torn down by a fault): the next call sees a transient error, re-dials and revives a client its user has closed")
+		default:
 			r.Bad("C11.M4", "kmipclient.conn.Close", cl.Pos(), "Close does not mark the connection closed before tearing it down: a concurrent call can still pass checkAvailable")
 		}
 	}
@@ -886,5 +901,241 @@ func c10L4(r *Run) {
 		} else {
 			r.Bad("C10.L4", key, s.in.Pos(), "readloop: %s", why)
 		}
+	}
+}
+
+// ---------------------------------------------------------------- M7
+
+// c11M7: the error the transport reports is the error the client's retry test sees: Stream.Recv returns the Read
+// error itself (or wraps it with %w), and the read loop hands it to terminate unchanged except for the documented
+// net.ErrClosed -> io.ErrClosedPipe mapping. (The retry set of M2 is {io.EOF, io.ErrClosedPipe}: a peer that closes
+// the stream, at a message boundary or inside a response, must surface as io.EOF.)
+func c11M7(r *Run) {
+	p := r.P
+	r.Rule("C11.M7", "a transport end-of-stream reaches the retry test as io.EOF: Stream.Recv passes the Read error through unchanged", 1)
+	fn := p.Func("ttlv", "Stream", "Recv")
+	key := "ttlv.Stream.Recv/read-error-passthrough"
+	if fn == nil {
+		r.Unk("C11.M7", key, token.NoPos, "anchor missing")
+		return
+	}
+	var read *ssa.Call
+	allInstrs(fn, func(in ssa.Instruction) {
+		if c, ok := in.(*ssa.Call); ok && c.Call.IsInvoke() && c.Call.Method.Name() == "Read" {
+			read = c
+		}
+	})
+	if read == nil {
+		r.Unk("C11.M7", key, fn.Pos(), "Read call not found")
+		return
+	}
+	var rerr ssa.Value
+	for _, ref := range *read.Referrers() {
+		if ex, ok := ref.(*ssa.Extract); ok && ex.Index == 1 {
+			rerr = ex
+		}
+	}
+	if rerr == nil {
+		r.Bad("C11.M7", key, read.Pos(), "the error of Read is dropped")
+		return
+	}
+	// returns on the err != nil edge
+	n, bad := 0, token.NoPos
+	for _, b := range fn.Blocks {
+		ret, ok := b.Instrs[len(b.Instrs)-1].(*ssa.Return)
+		if !ok {
+			continue
+		}
+		onErr := false
+		for _, dc := range dominatingConds(b) {
+			if bo, ok := dc.cond.(*ssa.BinOp); ok && bo.X == rerr && isNilConst(bo.Y) && (bo.Op == token.NEQ) == dc.outcome {
+				onErr = true
+			}
+		}
+		if !onErr {
+			continue
+		}
+		n++
+		v := ret.Results[0]
+		okV := v == rerr
+		if c, isCall := v.(*ssa.Call); isCall && callID(&c.Call).is("fmt", "", "Errorf") {
+			// wrapping with %w keeps errors.Is
+			if k, ok := c.Call.Args[0].(*ssa.Const); ok && isStringConst(k) && strings.Contains(k.Value.ExactString(), "%w") {
+				okV = true
+			}
+		}
+		if !okV {
+			bad = ret.Pos()
+		}
+	}
+	switch {
+	case n == 0:
+		r.Unk("C11.M7", key, fn.Pos(), "no return on the Read error edge found")
+	case bad.IsValid():
+		r.Bad("C11.M7", key, bad, "Stream.Recv replaces the error reported by the transport (e.g. io.EOF inside a message becomes another error): the client's reconnect logic only recognises io.EOF / io.ErrClosedPipe, so a connection that ends inside a response is never replaced and every later call fails")
+	default:
+		r.OK("C11.M7", key, read.Pos(), "%d return(s) on the Read error edge, each returning the transport's error itself", n)
+	}
+}
+
+// ---------------------------------------------------------------- M8 / M9
+
+// c11M8: a connection torn down by a fault is never reused. Every path from the entry of Client.doRountrip to the
+// first exchange either re-dials or has seen a liveness test of the current connection (a test that reads the
+// connection's own context) come out negative.
+func c11M8(r *Run) {
+	p := r.P
+	r.Rule("C11.M8", "a failed connection is never reused: doRountrip re-dials before the exchange unless the connection's own context is still live", 1)
+	fn := p.Func("kmipclient", "Client", "doRountrip")
+	key := "kmipclient.Client.doRountrip/fresh-connection"
+	if fn == nil {
+		r.Unk("C11.M8", key, token.NoPos, "anchor missing")
+		return
+	}
+	// does fn2 (a conn method) read the connection's ctx field?
+	readsCtx := func(fn2 *ssa.Function) bool {
+		if fn2 == nil || fn2.Blocks == nil {
+			return false
+		}
+		found := false
+		allInstrs(fn2, func(in ssa.Instruction) {
+			if fa, ok := in.(*ssa.FieldAddr); ok && typeName(fa.X.Type()) == "conn" {
+				if _, isCtx := derefStruct(fa.X.Type()).Field(fa.Field).Type().Underlying().(*types.Interface); isCtx && typeName(derefStruct(fa.X.Type()).Field(fa.Field).Type()) == "Context" {
+					found = true
+				}
+			}
+		})
+		return found
+	}
+	var isLive func(v ssa.Value, d int) bool
+	isLive = func(v ssa.Value, d int) bool {
+		if d > 5 || v == nil {
+			return false
+		}
+		switch x := v.(type) {
+		case *ssa.Call:
+			if sc := x.Call.StaticCallee(); sc != nil && idOf(sc).pkg == cliPath && idOf(sc).recv == "conn" && readsCtx(sc) {
+				return true
+			}
+			if x.Call.IsInvoke() && (x.Call.Method.Name() == "Err" || x.Call.Method.Name() == "Done") && typeName(x.Call.Value.Type()) == "Context" {
+				if ld, ok := x.Call.Value.(*ssa.UnOp); ok {
+					if fa, ok := ld.X.(*ssa.FieldAddr); ok && typeName(fa.X.Type()) == "conn" {
+						return true
+					}
+				}
+			}
+		case *ssa.BinOp:
+			return isLive(x.X, d+1) || isLive(x.Y, d+1)
+		case *ssa.UnOp:
+			return isLive(x.X, d+1)
+		case *ssa.Phi:
+			for _, e := range x.Edges {
+				if isLive(e, d+1) {
+					return true
+				}
+			}
+		}
+		return false
+	}
+	hasCall := func(b *ssa.BasicBlock, name string) bool {
+		for _, in := range b.Instrs {
+			if c, ok := in.(*ssa.Call); ok && callID(&c.Call).is(cliPath, map[string]string{"roundtrip": "conn", "reconnect": "Client"}[name], name) {
+				return true
+			}
+		}
+		return false
+	}
+	// depth-first over acyclic paths from the entry, stopping at the first exchange
+	okAll, nPaths := true, 0
+	var bad *ssa.BasicBlock
+	var walk func(b *ssa.BasicBlock, seen map[*ssa.BasicBlock]bool, safe bool)
+	walk = func(b *ssa.BasicBlock, seen map[*ssa.BasicBlock]bool, safe bool) {
+		if nPaths > 4096 {
+			return
+		}
+		if hasCall(b, "reconnect") {
+			safe = true
+		}
+		if hasCall(b, "roundtrip") {
+			nPaths++
+			if !safe {
+				okAll, bad = false, b
+			}
+			return
+		}
+		for i, s := range b.Succs {
+			if seen[s] {
+				continue
+			}
+			s2 := safe
+			if iff, ok := b.Instrs[len(b.Instrs)-1].(*ssa.If); ok && isLive(iff.Cond, 0) {
+				// the liveness test was evaluated on this path; either outcome is an informed decision: the
+				// positive edge must lead to reconnect (checked by `safe` staying false until reconnect is met)
+				if i == 1 {
+					s2 = true
+				}
+			}
+			seen[s] = true
+			walk(s, seen, s2)
+			delete(seen, s)
+		}
+	}
+	walk(fn.Blocks[0], map[*ssa.BasicBlock]bool{fn.Blocks[0]: true}, false)
+	switch {
+	case nPaths == 0:
+		r.Unk("C11.M8", key, fn.Pos(), "no path to an exchange found")
+	case !okAll:
+		r.Bad("C11.M8", key, bad.Instrs[0].Pos(), "a path reaches the exchange without re-dialling and without having found the current connection's context live: after a failure that is not in the retry set (connection reset, broken pipe, TLS alert) the torn-down connection stays installed and every later call returns its stale error, although the server is reachable")
+	default:
+		r.OK("C11.M8", key, fn.Pos(), "%d path(s) to the first exchange: each re-dials or has tested the connection's own context", nPaths)
+	}
+}
+
+// c11M9: the client's connection pointer is never nil once the client exists: Client.Close (also called by DialContext
+// on a failed negotiation) dereferences it without a test.
+func c11M9(r *Run) {
+	p := r.P
+	r.Rule("C11.M9", "Client.conn is never reset to nil (Close dereferences it): a failed re-dial keeps the old connection object", 1)
+	n, bad := 0, token.NoPos
+	for _, fn := range pkgFuncs(p, "kmipclient") {
+		allInstrs(fn, func(in ssa.Instruction) {
+			st, ok := in.(*ssa.Store)
+			if !ok {
+				return
+			}
+			fa, ok := st.Addr.(*ssa.FieldAddr)
+			if !ok || typeName(fa.X.Type()) != "Client" {
+				return
+			}
+			if pt, ok := derefStruct(fa.X.Type()).Field(fa.Field).Type().(*types.Pointer); !ok || typeName(pt.Elem()) != "conn" {
+				return
+			}
+			n++
+			if isNilConst(st.Val) {
+				bad = st.Pos()
+			}
+		})
+	}
+	// is Close guarded? then nil is fine
+	guarded := false
+	if cl := p.Func("kmipclient", "Client", "Close"); cl != nil {
+		allInstrs(cl, func(in ssa.Instruction) {
+			if bo, ok := in.(*ssa.BinOp); ok && isNilConst(bo.Y) {
+				if ld, ok := bo.X.(*ssa.UnOp); ok {
+					if fa, ok := ld.X.(*ssa.FieldAddr); ok && typeName(fa.X.Type()) == "Client" {
+						guarded = true
+					}
+				}
+			}
+		})
+	}
+	key := "kmipclient.Client.conn/never-nil"
+	switch {
+	case bad.IsValid() && !guarded:
+		r.Bad("C11.M9", key, bad, "Client.conn is set to nil while Client.Close dereferences it without a test: when the re-dial that follows fails (server gone), Close - and DialContext's own cleanup - panics")
+	case n == 0:
+		r.Unk("C11.M9", key, token.NoPos, "no assignment of Client.conn found")
+	default:
+		r.OK("C11.M9", key, token.NoPos, "%d assignment(s) of Client.conn, none of nil (or Close tests it)", n)
 	}
 }
